@@ -278,6 +278,28 @@ func (in *vfC14Inst) shutdown(judge bool) string {
 	g.n.cancel()
 	in.cancelled = true
 	synctest.Wait()
+	if g.cfg.Extra["validators_ignore_ctx"] != "" {
+		// validators that ignore their context end only now, after the event loop has gone: what their workers do
+		// next (mark the next message seen, report a verdict) happens on the way down
+		// (a worker may pick the next queued message instead of noticing the cancellation -- the select is the
+		// runtime's -- and park in the validator again: keep ending them until none is left)
+		for round := 0; round < 8; round++ {
+			n := 0
+			g.vmu.Lock()
+			for _, inv := range g.valPend {
+				if inv.gate != nil {
+					inv.gate <- ValidationAccept
+					inv.gate = nil
+					n++
+				}
+			}
+			g.vmu.Unlock()
+			synctest.Wait()
+			if n == 0 {
+				break
+			}
+		}
+	}
 	if in.busy != nil {
 		if judge {
 			in.count("cancellations_with_the_loop_busy")
@@ -429,7 +451,7 @@ func vfC14Scenarios(thorough bool) []*vfGWScenario {
 		peers := []vfPeerCfg{{Name: "a", Proto: proto, IP: "10.0.0.1"}, {Name: "h", Proto: proto, IP: "10.0.0.2"}}
 		m2 := map[string]vfMsgSpec{"m1": {Topic: "t", Author: "x", Seq: 1, Size: 8}, "m2": {Topic: "t", Author: "x", Seq: 2, Size: 8}}
 		out = append(out, &vfGWScenario{Name: router + "-lastseen", Cfg: vfGWCfg{Router: router, Peers: peers, Topics: []string{"t"}, Params: "d2", QueueSize: 2, Strategy: "last", Workers: 1,
-			Prefix: []string{"conn:a", "sub:a:t", "conn:h", "join:t"}, Extra: map[string]string{"leak_is_violation": "1", "no_ops": "1"},
+			Prefix: []string{"conn:a", "sub:a:t", "conn:h", "join:t"}, Extra: map[string]string{"leak_is_violation": "1", "no_ops": "1", "validators_ignore_ctx": "1"},
 			Validators: []vfValCfg{{Name: "V", Topic: "t", Inline: true, Gated: true, Verdict: "A"}}},
 			Alphabet: []string{"pub:a:m1", "pub:a:m2", "pub:h:m2", "vrel:V:m1:A", "vrel:V:m2:A", "lpub:t:p1"}, Msgs: m2, Depth: d + 1, Leaf: []string{"cancel"}})
 	}
